@@ -618,6 +618,11 @@ fn enum_grid_cases(recvs: &[Recv], r: &Recv, rng: &mut Rng, _prop: &str, iter: u
     names.push(("zzz".to_string(), None));
     names.push((vs[0].rust.clone(), None)); // the Rust spelling, usually not the effective name
     names.retain(|(n, _)| addressable(n));
+    // a variant's name behind or in front of another path segment names nothing
+    if addressable(&base) && written(&base) == base {
+        names.push((format!("q::{base}"), None));
+        names.push((format!("{base}::q"), None));
+    }
     if names.is_empty() {
         return vec![];
     }
